@@ -66,6 +66,9 @@ def gen(seed, tier):
             st["allocation"] = near(rng, pivots_fit, FR)
         if rng.random() < 0.6:
             st["supply"] = max(0.0, near(rng, pivots_supply, SUPPLY))
+        if kind == "relsupply" and rng.random() < 0.1:
+            # integers no float can represent: "supply scaled by 1" is the supply itself
+            st["supply"] = rng.choice([2**53 + 1, 10**30 + 7, 2**60 + 5])
         if rng.random() < 0.3 or (kind == "switch" and rng.random() < 0.7):
             st["demand"] = near(rng, pivots_demand, DEMAND)
         steps.append(st)
